@@ -212,7 +212,7 @@ def main():
     jobsum = []
     for r in results:
         j = r['job']
-        tag = '%s N=%d %s%s' % (j.get('op', j.get('name', '?')), j.get('N', -1), j['cfg'], (' t=%s x=%s' % (j.get('fix_t'), j.get('fix_x'))) if j.get('fix_x') is not None else '')
+        tag = '%s N=%d %s%s' % (j.get('op', j.get('name', '?')), j.get('N', -1), j['cfg'], (' t=%s x=%s' % (j.get('fix_t'), j.get('fix_x'))) if j.get('fix_x') is not None else '') + (' embedded' if j.get('embedded') else '')
         if r.get('timeout'): incon.append('timeout in job ' + tag)
         if r.get('unsupported'): incon.append('unsupported construct in job %s: %s' % (tag, r['unsupported']))
         if r.get('error'): incon.append('internal error in job %s: %s' % (tag, r['error']))
